@@ -1,0 +1,47 @@
+//go:build verif
+
+/*
+ Licensed to the Apache Software Foundation (ASF) under one
+ or more contributor license agreements.  See the NOTICE file
+ distributed with this work for additional information
+ regarding copyright ownership.  The ASF licenses this file
+ to you under the Apache License, Version 2.0 (the
+ "License"); you may not use this file except in compliance
+ with the License.  You may obtain a copy of the License at
+
+     http://www.apache.org/licenses/LICENSE-2.0
+
+ Unless required by applicable law or agreed to in writing, software
+ distributed under the License is distributed on an "AS IS" BASIS,
+ WITHOUT WARRANTIES OR CONDITIONS OF ANY KIND, either express or implied.
+ See the License for the specific language governing permissions and
+ limitations under the License.
+*/
+
+package objects
+
+// Read-only accessors for the simulation harness (build tag verif).
+
+// SimSortQueues returns the child queues in the order the scheduler would try them.
+func (sq *Queue) SimSortQueues() []*Queue {
+	return sq.sortQueues()
+}
+
+// SimSortApplications returns the applications of a leaf queue in the order the scheduler would try them.
+func (sq *Queue) SimSortApplications() []*Application {
+	return sq.sortApplications(false)
+}
+
+// SimSortType returns the sort policy of the queue as a string.
+func (sq *Queue) SimSortType() string {
+	return sq.getSortType().String()
+}
+
+// SimSortedRequests returns the outstanding requests of the application in scheduling order.
+func (sa *Application) SimSortedRequests() []*Allocation {
+	sa.RLock()
+	defer sa.RUnlock()
+	out := make([]*Allocation, len(sa.sortedRequests))
+	copy(out, sa.sortedRequests)
+	return out
+}
